@@ -44,7 +44,14 @@ func verifC05(generic bool) {
 	}
 	errBuild := errors.New("build failure")
 	builds := 0
-	ctx := context.Background()
+	// the failing build may be one whose caller gave up: the builder cancels the caller's context before
+	// it returns its error (a timeout or cancellation failure is a builder failure like any other)
+	callerGaveUp := verifBool("callerCtxCancelledDuringBuild")
+	cancelled := false
+	var ctx context.Context = context.Background()
+	if callerGaveUp {
+		ctx = verifCallerCtx{Context: ctx, cancelled: &cancelled, done: nil, noDeadline: true}
+	}
 	var err1, err2 error
 	get := func() error { return nil }
 	if !generic {
@@ -54,6 +61,7 @@ func verifC05(generic bool) {
 			_, err := f.Get(ctx, []byte("k"), func(ctx context.Context) (interface{}, error) {
 				builds++
 				if builds == 1 {
+					cancelled = callerGaveUp
 					return nil, errBuild
 				}
 				return verifBuiltVal, nil
@@ -67,6 +75,7 @@ func verifC05(generic bool) {
 			_, err := f.Get(ctx, []byte("k"), func(ctx context.Context) (int, error) {
 				builds++
 				if builds == 1 {
+					cancelled = callerGaveUp
 					return 0, errBuild
 				}
 				return verifBuiltVal, nil
@@ -86,6 +95,7 @@ func verifC05(generic bool) {
 	t2 := verifInt64("t2")
 	verifAssume(t2 >= t1 && t2 <= verifT1)
 	now = t2
+	cancelled = false // the next Get comes with a live context
 	err2 = get()
 	verifRunBackground()
 	if mode == 2 {
